@@ -135,6 +135,61 @@ func c18Sweep(P *Program, tier string) []extraResult {
 		addKey("var." + name)
 		structOf(deref(gl.Type()), 0)
 	}
+	// a package-level variable of an interface type holds whatever concrete object is stored into it: the
+	// types of the values stored (a conversion to the interface on the spot, or one returned by the constructor
+	// that is called for the value) are state that outlives an evaluation too
+	concreteOf := func(v ssa.Value) []types.Type {
+		var out []types.Type
+		var fromValue func(v ssa.Value, depth int)
+		fromValue = func(v ssa.Value, depth int) {
+			switch x := v.(type) {
+			case *ssa.MakeInterface:
+				out = append(out, x.X.Type())
+			case *ssa.Call:
+				if callee := x.Call.StaticCallee(); callee != nil && depth < 2 {
+					for _, b := range callee.Blocks {
+						for _, in := range b.Instrs {
+							if r, ok := in.(*ssa.Return); ok {
+								for _, res := range r.Results {
+									fromValue(res, depth+1)
+								}
+							}
+						}
+					}
+				}
+			}
+		}
+		fromValue(v, 0)
+		return out
+	}
+	for _, fn := range yqlib.Members {
+		f, ok := fn.(*ssa.Function)
+		if !ok {
+			continue
+		}
+		fns := []*ssa.Function{f}
+		fns = append(fns, f.AnonFuncs...)
+		for _, g := range fns {
+			for _, b := range g.Blocks {
+				for _, in := range b.Instrs {
+					st, ok := in.(*ssa.Store)
+					if !ok {
+						continue
+					}
+					gl, ok := st.Addr.(*ssa.Global)
+					if !ok || gl.Pkg != yqlib {
+						continue
+					}
+					if _, isIface := deref(gl.Type()).Underlying().(*types.Interface); !isIface {
+						continue
+					}
+					for _, ct := range concreteOf(st.Val) {
+						structOf(ct, 0)
+					}
+				}
+			}
+		}
+	}
 	sort.Strings(keys)
 	var out []extraResult
 	for _, k := range keys {
